@@ -292,6 +292,34 @@ def r3(ctx: Ctx, roles) -> None:
             ctx.ob("C07.R3", fn, f"every close/write in {fn.qualname} happens after the marker is set", not late, f"{[n.text(50) for n in late[:2]]}")
     for k, what in graceful.items():
         ctx.ob("C07.R3", k, f"marker set at the {what} site", k in seen, "a graceful close would be reported as unexpected")
+    # disconnect() may wait in front of the marker - for a connect phase that is still running.  The futures it waits on
+    # are attributes that tell "a phase is running" by not being None: whoever completes one forgets it on the same
+    # path.  (Kept after completion, an established session's disconnect() would suspend before the marker is set, and
+    # a reset arriving in that gap is reported as unexpected although the local disconnect came first.)
+    disc = roles.conn.methods.get("disconnect")
+    if disc is not None:
+        gd = cfg_of(ctx, disc)
+        marks = [n for n in gd.reachable() if n.kind == "stmt" and any(st is n.ast for fn_, st, _, _ in writes if fn_ is disc)]
+        waited: set[str] = set()
+        if marks:
+            mbw = may_occurred_before(gd, lambda n: [f"w:{x.attr}" for a in ([y for y in walk_own(n.ast) if isinstance(y, ast.Await)] if n.ast is not None else []) for x in ast.walk(a) if isinstance(x, ast.Attribute) and norm(x.value) == "self" and x.attr.endswith("_future")])
+            for mk_ in marks:
+                waited |= {t[2:] for t in mbw.get(mk_, frozenset()) if t.startswith("w:")}
+        for attr in sorted(waited):
+            sites = 0
+            kept = []
+            for m in roles.conn.methods.values():
+                gm = None
+                for c in own_nodes(m.node):
+                    if isinstance(c, ast.Call) and isinstance(c.func, ast.Attribute) and c.func.attr in ("set_result", "set_exception") and norm(c.func.value) == f"self.{attr}":
+                        sites += 1
+                        gm = gm or cfg_of(ctx, m)
+                        clears = {n for n in gm.reachable() if n.kind == "stmt" and isinstance(n.ast, ast.Assign) and any(norm(t) == f"self.{attr}" for t in n.ast.targets) and isinstance(n.ast.value, ast.Constant) and n.ast.value.value is None}
+                        for cn in [n for n in gm.reachable() if any(x is c for x in node_calls(n))]:
+                            for l_, s_ in cn.succ:
+                                if l_ != "exc" and gm.exit in walk(gm, {}, lambda n: None, start=s_, blocked=clears) and s_ not in clears:
+                                    kept.append(f"{m.qualname} L{c.lineno}")
+            ctx.ob("C07.R3", disc, f"self.{attr}, waited for in front of the marker, is forgotten by whoever completes it ({sites} completion sites)", sites >= 1 and not kept, f"{sorted(set(kept))[:3] or 'no completion site found'}: disconnect() of an established session would suspend before the marker is set; a reset in that gap is reported as unexpected")
 
 
 def closing_or_writing(ctx: Ctx, roles) -> set[str]:
